@@ -1459,20 +1459,20 @@ RE_SLEEP_EXPR = re.compile(r"^\s*sleep\s*\(\s*(.+?)\s*\)\s*$")
 
 # Build directive: regex for target device
 RE_TARGET_CALL = re.compile(
-    r"""^\s*target\s*\(\s*(?:port\s*=\s*)?(?:['"])?\s*([A-Za-z0-9:_\-./\\~]+)\s*(?:['"])?(?:\s*,[^)]*)?\)\s*$"""
+    r"""^\s*target\s*\(\s*(?:port\s*=\s*)?(?:['"])?\s*([A-Za-z0-9:_\-./\\~]+)\s*(?:['"])?(?:\s*,[^)]*)?\s*\)\s*$"""
 )
 RE_TARGET_INLINE = re.compile(
-    r"""(?<!\.)\btarget\s*\(\s*(?:port\s*=\s*)?(?:['"])?\s*([A-Za-z0-9:_\-./\\~]+)\s*(?:['"])?(?:\s*,[^)]*)?\)"""
+    r"""(?<!\.)\btarget\s*\(\s*(?:port\s*=\s*)?(?:['"])?\s*([A-Za-z0-9:_\-./\\~]+)\s*(?:['"])?(?:\s*,[^)]*)?\s*\)"""
 )
 
 # Top-level control
-RE_WHILE_TRUE     = re.compile(r"^\s*while\s+True\s*:\s*$")
-RE_WHILE          = re.compile(r"^\s*while\s+(.+?)\s*:\s*$")
+RE_WHILE_TRUE     = re.compile(r"^\s*while(?:\s+True|\s*\(\s*True\s*\))\s*:\s*$")
+RE_WHILE          = re.compile(r"^\s*while(?:\s+|(?=\())(.+?)\s*:\s*$")
 RE_FOR_RANGE      = re.compile(
-    r"^\s*for\s+([A-Za-z_]\w*)\s+in\s+range\((.*)\)\s*:\s*$"
+    r"^\s*for\s+([A-Za-z_]\w*)\s+in\s+range\s*\((.*)\)\s*:\s*$"
 )
-RE_IF             = re.compile(r"^\s*if\s+(.+?)\s*:\s*$")
-RE_ELIF           = re.compile(r"^\s*elif\s+(.+?)\s*:\s*$")
+RE_IF             = re.compile(r"^\s*if(?:\s+|(?=\())(.+?)\s*:\s*$")
+RE_ELIF           = re.compile(r"^\s*elif(?:\s+|(?=\())(.+?)\s*:\s*$")
 RE_ELSE           = re.compile(r"^\s*else\s*:\s*$")
 RE_TRY            = re.compile(r"^\s*try\s*:\s*$")
 RE_EXCEPT         = re.compile(
